@@ -9,7 +9,32 @@ import time
 import traceback
 import warnings
 
+import multiprocessing
+import multiprocessing.pool
+
 JOBS = {}
+
+
+class _NoDaemonProcess(multiprocessing.get_context('fork').Process):
+    @property
+    def daemon(self):
+        return False
+
+    @daemon.setter
+    def daemon(self, value):
+        pass
+
+
+class _NoDaemonContext(type(multiprocessing.get_context('fork'))):
+    Process = _NoDaemonProcess
+
+
+class NestablePool(multiprocessing.pool.Pool):
+    """worker processes that may themselves start pools (the group functions do)"""
+
+    def __init__(self, *args, **kwargs):
+        kwargs['context'] = _NoDaemonContext()
+        super().__init__(*args, **kwargs)
 
 
 def job(name, **meta):
@@ -58,8 +83,7 @@ def run_job(name, tier, seed, budget_s=None, procs=None, max_fail=5):
     gen = j.gen(tier, seed)
     chunk_size = getattr(j, 'chunk', 200)
     truncated = False
-    ctx = mp.get_context('fork')
-    with ctx.Pool(procs) as pool:
+    with NestablePool(procs) as pool:
         def chunks():
             nonlocal truncated
             while True:
